@@ -167,5 +167,7 @@ func hTwo() {
 	}
 	a.final(mask, vpParam(5+3*n))
 	b.final(mask, vpParam(5+3*n+1))
-	vpAssert(vpConflicts() == 0, "C16 two trees touched the same memory outside the synchronised pool (or wrote package-level state)")
+	if mask&ckPure != 0 { // the footprint premise belongs to C16; C12 judges behaviour only
+		vpAssert(vpConflicts() == 0, "C16 two trees touched the same memory outside the synchronised pool (or wrote package-level state)")
+	}
 }
